@@ -110,6 +110,9 @@ pub enum Alter {
     Magic,
     /// ICMP identifier (to another non-zero value).
     IcmpId,
+    /// ICMP identifier forced to zero (a sibling whose identifier is 0; udp/tcp quotations carry
+    /// no identifier and are reported with 0 - an ICMP tracer must not take that for its own).
+    IcmpIdZero,
     /// A foreign UDP datagram whose payload is only the first k (0..=5) octets of the Dublin/IPv6
     /// marker (e.g. another tool's empty-payload probe): consistent UDP / IP length fields.
     MagicShort(u8),
@@ -210,6 +213,9 @@ pub enum JunkKind {
     /// Well-formed quotation naming the sequence of a probe of the current round that never
     /// reached the wire (its send, bind or connect failed: the slot is Failed or Skipped).
     Unsent,
+    /// A second answer, this time from the target's address (Echo Reply / port unreachable), to a
+    /// probe of the current round that a router has already answered.
+    SecondAnswerFromTarget,
     /// Unrelated ICMP traffic (an Echo Request from someone pinging this host): decodes to nothing.
     Inert,
 }
@@ -219,6 +225,7 @@ pub struct ForgePlan {
     edits: Vec<(usize, u16)>,
     flip: Option<usize>,
     echo_reply: Option<u16>,
+    from_target: bool,
 }
 
 #[derive(Debug, Clone)]
@@ -667,6 +674,11 @@ impl World {
                         }
                     }
                 }
+                Alter::IcmpIdZero => {
+                    if q.len() >= l4off + 6 {
+                        q[l4off + 4..l4off + 6].copy_from_slice(&[0, 0]);
+                    }
+                }
                 Alter::IcmpId => {
                     if q.len() >= l4off + 6 {
                         let id = u16::from_be_bytes([q[l4off + 4], q[l4off + 5]]);
@@ -922,6 +934,18 @@ impl World {
                         out.push((*k, last.idx, JunkSrc::Plan(ForgePlan::default())));
                     }
                 }
+                JunkKind::SecondAnswerFromTarget => {
+                    if self.cfg.proto != Proto::Tcp {
+                        if let Some(d) = self
+                            .deliveries
+                            .iter()
+                            .rev()
+                            .find(|d| d.round == self.round && d.genuine && d.junk.is_none() && self.sent[d.for_sent].round == self.round && self.resps[d.resp].from != self.cfg.dst)
+                        {
+                            out.push((*k, d.for_sent, JunkSrc::Plan(ForgePlan { from_target: true, ..ForgePlan::default() })));
+                        }
+                    }
+                }
                 JunkKind::Late => {
                     if self.round > 0 {
                         // a response generated for a probe of the previous round (delivered or not)
@@ -1067,7 +1091,7 @@ impl World {
                     }
                 }
             }
-            JunkKind::Duplicate | JunkKind::Late | JunkKind::Inert => return None,
+            JunkKind::Duplicate | JunkKind::Late | JunkKind::Inert | JunkKind::SecondAnswerFromTarget => return None,
         }
         Some(plan)
     }
@@ -1075,6 +1099,20 @@ impl World {
     fn forge_build(&self, base: &SentRec, plan: &ForgePlan) -> (Vec<u8>, IpAddr) {
         let v6 = self.cfg.v6;
         let l4 = base.l4off;
+        if plan.from_target {
+            // what the target itself would send in answer to `base`
+            let dst = self.cfg.dst;
+            if self.cfg.proto == Proto::Icmp {
+                let echo = wire::parse_echo(&base.wire[l4..]).expect("MACHINERY: echo");
+                let (typ, pseudo) = if v6 { (wire::ICMP6_ECHO_REPLY, Some((dst, self.cfg.src))) } else { (wire::ICMP4_ECHO_REPLY, None) };
+                let icmp = wire::build_echo(typ, echo.id, echo.seq, &echo.payload, pseudo);
+                return (self.wrap_icmp(dst, icmp, 0), dst);
+            }
+            let code = if v6 { 4 } else { 3 };
+            let (q, _) = self.quoted(base, self.cfg.topo.hops.len(), None, Quote::Full);
+            let icmp = self.icmp_error(dst, false, code, &q, None);
+            return (self.wrap_icmp(dst, icmp, 0), dst);
+        }
         if let Some(delta) = plan.echo_reply {
             let echo = wire::parse_echo(&base.wire[l4..]).expect("MACHINERY: echo");
             // the sibling's own target answers the sibling's probe
